@@ -36,6 +36,8 @@ const (
 	svTuple // multiple results
 	svAddr  // address of a modelled cell
 	svNil
+	svList   // a slice with known elements: s = storage id, i = offset, n = length
+	svStruct // a struct value assembled from its field cells (for rendering only)
 )
 
 type sv struct {
@@ -48,6 +50,7 @@ type sv struct {
 	// for terms: operator and operands (s holds the canonical rendering)
 	op   string
 	args []sv
+	n    int64 // length of a list
 }
 
 func (v sv) String() string {
@@ -66,6 +69,10 @@ func (v sv) String() string {
 		return "&" + v.s
 	case svNil:
 		return "nil"
+	case svList:
+		return fmt.Sprintf("list(%s,%d,%d)", v.s, v.i, v.n)
+	case svStruct:
+		return v.s
 	case svTuple:
 		var p []string
 		for _, t := range v.tup {
@@ -102,8 +109,13 @@ type ssaEval struct {
 	call func(call ssa.CallInstruction, args []sv) (res sv, handled bool)
 	// noInline: module functions that must be treated as opaque
 	noInline func(fn *ssa.Function) bool
+	// guide chooses the successor at a branch whose condition has no value (directed
+	// evaluation towards a target block); the choice is recorded in assumed
+	guide   func(ifi *ssa.If) (succ int, ok bool)
+	assumed []string
 
 	mem     map[string]sv
+	lists   map[string][]sv
 	effects []ssaEffect
 	path    []*ssa.BasicBlock
 	why     string // why the evaluation stopped early
@@ -214,6 +226,12 @@ func (e *ssaEval) runBlocks(fr *frame, b, pred *ssa.BasicBlock, stop func(next, 
 				continue
 			case *ssa.If:
 				cv := e.val(fr, x.Cond)
+				if cv.k != svBool && e.guide != nil && e.depth == 0 {
+					if succ, ok := e.guide(x); ok {
+						cv = boolV(succ == 0)
+						e.assumed = append(e.assumed, fmt.Sprintf("%s = %v", e.c.valShape(x.Cond), succ == 0))
+					}
+				}
 				if cv.k != svBool {
 					e.why = "a branch depends on a value the table does not fix: " + e.c.valShape(x.Cond) + " at " + e.c.pos(x.Pos())
 					return b, pred, nil
@@ -344,10 +362,45 @@ func (e *ssaEval) instr(fr *frame, ins ssa.Instruction) {
 				set(x, intV(e.wrapInt(x.Type(), ^a.i)))
 			}
 		case token.MUL: // load
+			if a.k == svAddr && strings.HasPrefix(a.s, "const:") {
+				var b int64
+				fmt.Sscan(a.s[6:], &b)
+				set(x, intV(b))
+				return
+			}
+			if a.k == svAddr && strings.HasPrefix(a.s, "list:") {
+				var id string
+				var k int
+				parts := strings.Split(a.s, ":")
+				id = parts[1]
+				fmt.Sscan(parts[2], &k)
+				if k < len(e.lists[id]) {
+					set(x, e.lists[id][k])
+				}
+				return
+			}
 			if a.k == svAddr {
 				if v, ok := e.mem[a.s]; ok {
 					set(x, v)
 					return
+				}
+				// a struct whose fields are modelled
+				if _, isStruct := x.Type().Underlying().(*types.Struct); isStruct {
+					var keys []string
+					for k := range e.mem {
+						if strings.HasPrefix(k, a.s+".") && !strings.Contains(k[len(a.s)+1:], ".") {
+							keys = append(keys, k)
+						}
+					}
+					if len(keys) > 0 {
+						sort.Strings(keys)
+						var p []string
+						for _, k := range keys {
+							p = append(p, k[len(a.s)+1:]+":"+e.render(e.mem[k]))
+						}
+						set(x, sv{k: svStruct, s: "{" + strings.Join(p, ",") + "}"})
+						return
+					}
 				}
 			}
 			if e.load != nil {
@@ -362,6 +415,11 @@ func (e *ssaEval) instr(fr *frame, ins ssa.Instruction) {
 		}
 	case *ssa.Convert:
 		a := e.val(fr, x.X)
+		if a.k == svFloat {
+			if bt, ok := x.Type().Underlying().(*types.Basic); ok && bt.Info()&types.IsInteger != 0 {
+				a = intV(e.wrapInt(x.Type(), int64(a.f)))
+			}
+		}
 		if a.k == svInt {
 			if bt, ok := x.Type().Underlying().(*types.Basic); ok {
 				if bt.Info()&types.IsInteger != 0 {
@@ -390,6 +448,20 @@ func (e *ssaEval) instr(fr *frame, ins ssa.Instruction) {
 		}
 	case *ssa.IndexAddr:
 		a, i := e.val(fr, x.X), e.val(fr, x.Index)
+		if a.k == svString && i.k == svInt && i.i >= 0 && i.i < int64(len(a.s)) {
+			// element of a concrete byte sequence
+			set(x, sv{k: svAddr, s: fmt.Sprintf("const:%d", a.s[i.i])})
+			return
+		}
+		if a.k == svList && i.k == svInt {
+			if i.i < 0 || i.i >= a.n {
+				e.why = fmt.Sprintf("index %d out of range for a slice of length %d at %s", i.i, a.n, e.c.pos(x.Pos()))
+				e.effects = append(e.effects, ssaEffect{ins: x, what: "panic"})
+				return
+			}
+			set(x, sv{k: svAddr, s: fmt.Sprintf("list:%s:%d", a.s, a.i+i.i)})
+			return
+		}
 		if (a.k == svAddr || a.k == svSym) && i.known() {
 			set(x, sv{k: svAddr, s: a.s + "[" + i.String() + "]"})
 		}
@@ -401,6 +473,10 @@ func (e *ssaEval) instr(fr *frame, ins ssa.Instruction) {
 		}
 	case *ssa.Index:
 		a, i := e.val(fr, x.X), e.val(fr, x.Index)
+		if a.k == svList && i.k == svInt && i.i >= 0 && i.i < a.n {
+			set(x, e.lists[a.s][a.i+i.i])
+			return
+		}
 		if a.k == svString && i.k == svInt && i.i >= 0 && i.i < int64(len(a.s)) {
 			set(x, intV(int64(a.s[i.i])))
 		} else if (a.k == svSym || a.k == svAddr) && i.known() {
@@ -420,6 +496,30 @@ func (e *ssaEval) instr(fr *frame, ins ssa.Instruction) {
 		}
 	case *ssa.Slice:
 		a := e.val(fr, x.X)
+		if a.k == svList || a.k == svNil {
+			lo, hi := int64(0), a.n
+			ok := true
+			if x.Low != nil {
+				if l := e.val(fr, x.Low); l.k == svInt {
+					lo = l.i
+				} else {
+					ok = false
+				}
+			}
+			if x.High != nil {
+				if h := e.val(fr, x.High); h.k == svInt {
+					hi = h.i
+				} else {
+					ok = false
+				}
+			}
+			if ok && a.k == svList && 0 <= lo && lo <= hi && a.i+hi <= int64(len(e.lists[a.s])) {
+				set(x, sv{k: svList, s: a.s, i: a.i + lo, n: hi - lo})
+			} else if ok && a.k == svNil && lo == 0 && hi == 0 {
+				set(x, a)
+			}
+			return
+		}
 		if a.k == svSym || a.k == svAddr {
 			lo, hi := sv{k: svSym, s: "_"}, sv{k: svSym, s: "_"}
 			if x.Low != nil {
@@ -463,6 +563,16 @@ func (e *ssaEval) instr(fr *frame, ins ssa.Instruction) {
 		}
 	case *ssa.Store:
 		a, v := e.val(fr, x.Addr), e.val(fr, x.Val)
+		if a.k == svAddr && strings.HasPrefix(a.s, "list:") {
+			parts := strings.Split(a.s, ":")
+			var k int
+			fmt.Sscan(parts[2], &k)
+			if k < len(e.lists[parts[1]]) {
+				e.lists[parts[1]][k] = v
+			}
+			e.effects = append(e.effects, ssaEffect{ins: x, what: "store", args: []sv{v}, addr: a.s})
+			return
+		}
 		if a.k == svAddr {
 			if e.mem == nil {
 				e.mem = map[string]sv{}
@@ -495,7 +605,22 @@ func (e *ssaEval) instr(fr *frame, ins ssa.Instruction) {
 				set(x, r)
 			}
 		}
-	case *ssa.MakeSlice, *ssa.MakeMap, *ssa.MakeClosure, *ssa.MakeChan:
+	case *ssa.MakeSlice:
+		if l := e.val(fr, x.Len); l.k == svInt && l.i >= 0 && l.i < 4096 {
+			zero := sv{k: svFloat}
+			if bt, ok := x.Type().Underlying().(*types.Slice).Elem().Underlying().(*types.Basic); ok && bt.Info()&types.IsInteger != 0 {
+				zero = intV(0)
+			}
+			el := make([]sv, l.i)
+			for i := range el {
+				el[i] = zero
+			}
+			set(x, e.newList(el))
+			return
+		}
+		e.nalloc++
+		set(x, symV(fmt.Sprintf("fresh%d", e.nalloc)))
+	case *ssa.MakeMap, *ssa.MakeClosure, *ssa.MakeChan:
 		e.nalloc++
 		set(x.(ssa.Value), symV(fmt.Sprintf("fresh%d", e.nalloc)))
 	}
@@ -637,6 +762,21 @@ func (e *ssaEval) doCall(fr *frame, x *ssa.Call) sv {
 			if len(args) == 1 && args[0].k == svString {
 				return intV(int64(len(args[0].s)))
 			}
+			if len(args) == 1 && args[0].k == svList {
+				if b.Name() == "cap" {
+					return intV(int64(len(e.lists[args[0].s])) - args[0].i)
+				}
+				return intV(args[0].n)
+			}
+			if len(args) == 1 && args[0].k == svNil {
+				return intV(0)
+			}
+		case "append":
+			if len(args) == 2 && (args[0].k == svList || args[0].k == svNil) {
+				if el, ok := e.elems(args[1]); ok {
+					return e.listAppend(args[0], el)
+				}
+			}
 			if len(args) == 1 && args[0].known() {
 				return term(b.Name(), args[0])
 			}
@@ -719,4 +859,108 @@ func callName(call ssa.CallInstruction) string {
 		return "builtin " + b.Name()
 	}
 	return ""
+}
+
+// guideTo returns a guide that, at an undecided branch, takes the successor from which target is
+// reachable when the other one cannot reach it.
+func guideTo(target *ssa.BasicBlock) func(ifi *ssa.If) (int, bool) {
+	reach := func(from *ssa.BasicBlock) bool {
+		seen := map[*ssa.BasicBlock]bool{}
+		stack := []*ssa.BasicBlock{from}
+		for len(stack) > 0 {
+			b := stack[len(stack)-1]
+			stack = stack[:len(stack)-1]
+			if b == target {
+				return true
+			}
+			if seen[b] {
+				continue
+			}
+			seen[b] = true
+			stack = append(stack, b.Succs...)
+		}
+		return false
+	}
+	return func(ifi *ssa.If) (int, bool) {
+		b := ifi.Block()
+		r0, r1 := reach(b.Succs[0]), reach(b.Succs[1])
+		switch {
+		case r0 && !r1:
+			return 0, true
+		case r1 && !r0:
+			return 1, true
+		}
+		return 0, false
+	}
+}
+
+// ---- lists: slices whose elements are known (symbols or constants)
+
+func (e *ssaEval) newList(elems []sv) sv {
+	if e.lists == nil {
+		e.lists = map[string][]sv{}
+	}
+	e.nalloc++
+	id := fmt.Sprintf("L%d", e.nalloc)
+	e.lists[id] = append([]sv{}, elems...)
+	return sv{k: svList, s: id, n: int64(len(elems))}
+}
+
+// elems returns the elements of a list value, or of a slice of a modelled array cell.
+func (e *ssaEval) elems(v sv) ([]sv, bool) {
+	switch {
+	case v.k == svList:
+		st := e.lists[v.s]
+		if v.i+v.n > int64(len(st)) {
+			return nil, false
+		}
+		return st[v.i : v.i+v.n], true
+	case v.k == svNil:
+		return nil, true
+	case v.op == "slice" && len(v.args) == 3 && v.args[0].k == svAddr:
+		var out []sv
+		for i := 0; ; i++ {
+			x, ok := e.mem[fmt.Sprintf("%s[%d]", v.args[0].s, i)]
+			if !ok {
+				break
+			}
+			out = append(out, x)
+		}
+		lo, hi := int64(0), int64(len(out))
+		if v.args[1].k == svInt {
+			lo = v.args[1].i
+		}
+		if v.args[2].k == svInt {
+			hi = v.args[2].i
+		}
+		if lo < 0 || hi > int64(len(out)) || lo > hi {
+			return nil, false
+		}
+		return out[lo:hi], true
+	}
+	return nil, false
+}
+
+func (e *ssaEval) render(v sv) string {
+	if el, ok := e.elems(v); ok && (v.k == svList || v.op == "slice") {
+		var p []string
+		for _, x := range el {
+			p = append(p, e.render(x))
+		}
+		return "[" + strings.Join(p, " ") + "]"
+	}
+	return v.String()
+}
+
+func (e *ssaEval) listAppend(l sv, vals []sv) sv {
+	if l.k == svNil {
+		return e.newList(vals)
+	}
+	st := e.lists[l.s]
+	if l.i+l.n == int64(len(st)) {
+		e.lists[l.s] = append(st, vals...)
+		return sv{k: svList, s: l.s, i: l.i, n: l.n + int64(len(vals))}
+	}
+	cur, _ := e.elems(l)
+	return e.newList(append(append([]sv{}, cur...), vals...))
 }
